@@ -446,7 +446,7 @@ HAND_EXPLICIT = {"v1", "v2", "tmp", "i", "x", "row", "el", "it", "idx", "e", "pa
 
 # The probes' verdicts always go to the evidence; their clause violations (if any) become
 # violations of the run only when this is True.
-PROBE_CLAUSE_VIOLATIONS_REPORTED = False
+PROBE_CLAUSE_VIOLATIONS_REPORTED = True
 
 # (n, what the seeding agent says, templates, root, data) -- checked on the unchanged tree; the
 # verdicts go to the evidence (set `probe_results`, notes), see SCOPE_MISMATCH_IS_VIOLATION
